@@ -168,6 +168,15 @@ def run(ctx, rep):
     rep.floor("facade obligations", n_f, ftab["facade_floor"])
     reset_rule(ctx, rep, ftab)
     uninit_rule(ctx, rep)
+    # "decoding is unaffected by bytes that follow the stream": every rejection that compares a stream count
+    # with the *remaining input* depends on trailing bytes unless the bound can never fire for a valid stream,
+    # i.e. unless each item really consumes what the guard assumes (shared rule with C01)
+    from .C01 import g1justify
+    rep.rules_text.append(
+        "G1JUSTIFY: an input-relative count guard `count > remaining / k` (any k != 1, also fractions such as one "
+        "bit per item) is backed by a per-item consumption of at least k bytes in everything it dominates; "
+        "otherwise a valid stream is rejected or accepted depending on the bytes that follow it")
+    g1justify(ctx, rep, floor=10)
     rep.extra_cov["e2"] = {"ir_functions": len(g.fns), "reachable": len(reach), "entry_functions": len(present),
                            "pointer_as_data_functions_in_draco_sources": n_ptr}
 
